@@ -14,7 +14,23 @@ import (
 func promote(a, b interface{}) (x, y reflect.Value, t reflect.Type) {
 	va, vb := reflect.ValueOf(a), reflect.ValueOf(b)
 	t = term.Promote(va.Type(), vb.Type())
-	return va.Convert(t), vb.Convert(t), t
+	return ConvNum(va, t), ConvNum(vb, t), t
+}
+
+// ConvNum converts a numeric value to the numeric type t the way a Go
+// conversion expression does. reflect.Value.Convert is not that: it takes an
+// integer to float32 through float64, which rounds twice (2^63-2^38-383 goes to
+// 2^63 instead of 2^63-2^39).
+func ConvNum(v reflect.Value, t reflect.Type) reflect.Value {
+	if t.Kind() == reflect.Float32 {
+		switch {
+		case v.CanInt():
+			return reflect.ValueOf(float32(v.Int())).Convert(t)
+		case v.CanUint():
+			return reflect.ValueOf(float32(v.Uint())).Convert(t)
+		}
+	}
+	return v.Convert(t)
 }
 
 func isSigned(t reflect.Type) bool {
